@@ -41,7 +41,9 @@ def mk(rng, tissue, ext, flips, shifts, k, exhaustive=False):
     sim = {"theta": rng.uniform(0, 2 * math.pi), "scale": 10 ** rng.uniform(-1, 1), "offset_sizes": rng.uniform(0, 1), "extent": ext}
     return {"pair": True, "pair_kind": "relabel", "tissue": tissue, "k": k, "seed": rng.randrange(10 ** 9), "want": ["C07"],
             "runA": {"sim": sim}, "runB": {"sim": sim, "ids": {"offset": rng.choice([1, 17, 1000]), "stride": rng.choice([1, 2, 5]),
-                                                               "shuffle": rng.randrange(1, 10 ** 6)},
+                                                               "shuffle": rng.randrange(1, 10 ** 6),
+                                                               # a genuine renumbering (not only an affine map of the ids) in 2 of 3 pairs
+                                                               "vperm": rng.choice([0, rng.randrange(1, 10 ** 6), rng.randrange(1, 10 ** 6)])},
                                            "group": {"flips": flips, "shifts": shifts}},
             "build": {"limit": "inf", "fit": rng.choice(["dlite", "taubinSVD"])}, "solve": {"method": "default"},
             "pressure": True, "require_conditioned": tissue["kind"] == "equilibrium", "exhaustive_part": exhaustive,
